@@ -327,8 +327,8 @@ func cleanEq(a, b string) bool { return filepath.Clean(a) == filepath.Clean(b) }
 
 func isInput(w *World, p string) bool {
 	for _, f := range w.Files {
-		if cleanEq(f.Path, p) {
-			return true
+		if cleanEq(f.Path, p) || strings.HasSuffix(filepath.Clean(p), "/"+filepath.Clean(f.Path)) {
+			return true // (absolute input roots and run-from spellings put a prefix before the world's path)
 		}
 	}
 	return false
